@@ -87,6 +87,7 @@ func (e *fnEnc) siteAsserts(v ssa.Value, c *ssa.CallCommon, instr ssa.Instructio
 			if (cl.Site != site && cl.Site != n+"#*") || (cl.Kind == "assert-before") != before {
 				continue
 			}
+			isAssume := cl.Kind == "assume-after"
 			idx := -1
 			for k, in := range e.curBlk.Instrs {
 				if in == instr {
@@ -116,6 +117,11 @@ func (e *fnEnc) siteAsserts(v ssa.Value, c *ssa.CallCommon, instr ssa.Instructio
 			f, err := env.Bool(cl.Expr)
 			if err != nil {
 				e.fail("at call %s assert %q: %v", cl.Site, cl.Src, err)
+			}
+			if isAssume {
+				e.vc.assume(sImp(e.guard(), f))
+				e.vc.note("ASSUMED (library contract, not proved) at call %s in %s: %s", site, FuncKey(e.fn), cl.Src)
+				continue
 			}
 			props := cl.Props
 			if len(props) == 0 {
